@@ -315,7 +315,10 @@ func c27ReadSeg(p string, checkPayload bool) (*c27OSeg, error) {
 // family: "" = the general generator; "ahead" = at least two tracks, one of which is handed in 200..900 ms ahead of
 // the others (audio ahead of video, or video ahead of audio): whenever a segment is closed - by a switch or at the
 // end - the sample written last ends well before one written earlier; "sparse" = the same with an audio track of
-// long samples (0.3..1.2 s each) that is handed in ahead; "behind" = one track is handed in 200..900 ms late
+// long samples (0.3..1.2 s each) that is handed in ahead; "behind" = one track is handed in 200..900 ms late;
+// "oversize" = a small maximum part size and, in the second half of the stream, one sample larger than it: the call
+// that writes it fails ("reached maximum part size"), the recorder instance closes the format, and the segment closed
+// after the failure must record the duration of what it holds (the refused sample does not count)
 func c27GenStream(rnd *vRand, k int, family string) *c27Stream {
 	s := &c27Stream{Kind: "av"}
 	ms := int64(time.Millisecond)
@@ -361,6 +364,9 @@ func c27GenStream(rnd *vRand, k int, family string) *c27Stream {
 	if family == "" && rnd.Chance(1, 8) {
 		s.MaxPart = int64(200 + rnd.Intn(1500))
 		s.Kind += "+small-max-part"
+	}
+	if family == "oversize" {
+		s.MaxPart = int64(300 + rnd.Intn(1500))
 	}
 	if family != "" {
 		// mostly the video track is the one behind (it is the video track that switches segments: the switch then comes
@@ -420,7 +426,7 @@ func c27GenStream(rnd *vRand, k int, family string) *c27Stream {
 		if family != "" {
 			off = int64(rnd.Intn(60)-30) * ms
 		}
-		if ti == aheadTrack {
+		if ti == aheadTrack && family != "oversize" {
 			lat = -lead
 		}
 		var step int64
@@ -456,7 +462,7 @@ func c27GenStream(rnd *vRand, k int, family string) *c27Stream {
 				}
 				left--
 			}
-			if rnd.Chance(1, 40) {
+			if rnd.Chance(1, 40) && family != "oversize" {
 				ev.Size = 200 + rnd.Intn(1800) // a big sample
 			}
 			tdur := dts / tc.Rate * int64(time.Second) + dts % tc.Rate * int64(time.Second) / tc.Rate
@@ -520,6 +526,10 @@ func c27GenStream(rnd *vRand, k int, family string) *c27Stream {
 			}
 			all = all[:len(all)-1]
 		}
+	}
+	if family == "oversize" && len(all) > 4 {
+		i := len(all)/2 + rnd.Intn(len(all)/2-1)
+		all[i].ev.Size = int(s.MaxPart) + 1 + rnd.Intn(200)
 	}
 	for _, p := range all {
 		s.Events = append(s.Events, p.ev)
@@ -610,19 +620,19 @@ func c27SegClass(s *c27Stream, o *c27Obs) string {
 	return cl
 }
 
-// c27Family: besides the n general streams, every run has n/4 (at least 6) streams of the families in which the
-// tracks are out of step when a segment is closed.
+// c27Family: besides the n general streams, every run has n/3 (at least 8) streams of the families in which the
+// tracks are out of step when a segment is closed or a write fails.
 func c27Family(k, n int) string {
 	if k < n {
 		return ""
 	}
-	return []string{"ahead", "sparse", "behind"}[(k-n)%3]
+	return []string{"ahead", "sparse", "behind", "oversize"}[(k-n)%4]
 }
 
 func c27SegCases(t *testing.T, out *vOut, rnd *vRand, root string, n int) {
-	extra := n / 4
-	if extra < 6 {
-		extra = 6
+	extra := n / 3
+	if extra < 8 {
+		extra = 8
 	}
 	endNotLast, closed := 0, 0
 	for k := 0; k < n+extra; k++ {
